@@ -13,7 +13,7 @@ mut_rc=$(run); demo_tail=$(tail -3 /tmp/seed_demo.log | tr '\n' ' ' | cut -c1-30
 suite=$(cd $wt && PYTHONPATH=$wt/src /venv/bin/python -m pytest -q -p no:cacheprovider --timeout=900 --deselect tests/dec/test_dec.py::test_particle_property_definitions --deselect tests/test_convert.py::test_full_convert 2>&1 | tail -1)
 results=""
 for p in $prop $extra; do
-  o=$(VERIF_REPO=$wt VERIF_EVIDENCE_DIR=/tmp/seed_ev VERIF_REPLAY_DIR=/tmp/seed_rp ./check $p --tier quick 2>&1); rc=$?
+  o=$(VERIF_REPO=$wt VERIF_EVIDENCE_DIR=/tmp/seed_ev VERIF_REPLAY_DIR=/tmp/seed_rp timeout 1500 ./check $p --tier quick 2>&1); rc=$?
   sig=$(echo "$o" | grep -m1 -A1 '^VIOLATION' | tail -1 | sed 's/^ *//' | cut -c1-120)
   if [ $rc -eq 1 ]; then results="$results $p:DETECTED($sig)"; elif [ $rc -eq 0 ]; then results="$results $p:MISSED"; else results="$results $p:ERROR($rc)"; fi
 done
